@@ -46,7 +46,8 @@ func checkC09(c *Ctx) {
 	asp := map[string]bool{"decode": true, "proto": true}
 	// besides the from-accuracy mappings, mappings built WithGamma and an offset that is not the kind's default
 	// (each field of the mapping message then differs from every other number the mapping holds)
-	maps := append(mappingMatrix(c.alphas(), nil), []MappingSpec{{"linear@log", 0.02}}, []MappingSpec{{"cubic@log", 0.01}}, []MappingSpec{{"log@cubic", 0.05}}, []MappingSpec{{"linear@cubic", 0.1}})
+	maps := append(mappingMatrix(c.alphas(), nil), []MappingSpec{{"linear@log", 0.02}}, []MappingSpec{{"cubic@log", 0.01}}, []MappingSpec{{"log@cubic", 0.05}}, []MappingSpec{{"linear@cubic", 0.1}},
+		[]MappingSpec{{"log#-7.5", 0.02}}, []MappingSpec{{"linear#-1338.25", 0.01}}, []MappingSpec{{"cubic#-0.5", 0.05}}, []MappingSpec{{"cubic#12.5", 0.01}})
 	mx := &SketchMatrix{Mappings: maps, Reals: exactRealKinds, Modes: []string{"every"}, Aspects: asp}
 	tree := &SketchGen{Init: plainExact(2, "plain"), Tokens: []int{10, 15, -11, 0}, Weights: []int{6, 132}, Ops: []string{"Add", "AddW", "Proto", "Clear"}, Q: 4, QDen: 8, Depth: c.pick(3, 4)}
 	c.runSketchGen(tree, mx, c.pick(6, 12), "exhaustive tree with protobuf round trips")
